@@ -70,7 +70,7 @@ def c03_jobs(tier):
         jobs.append(J('root', 'H_C03_cusum_cases', [n]))
         for fwd in (1, 0):
             for z in range(1, n + 1):
-                jobs.append(J('root', 'H_C03_cusum', [n, fwd, z]))
+                jobs.append(J('root', 'H_C03_cusum', [n, fwd, z], pin_consts=True))
     return jobs
 
 
@@ -90,7 +90,34 @@ def c04_jobs(tier):
     return jobs
 
 
+def c12_jobs(tier):
+    q = tier == 'quick'
+    jobs = [J('detect', 'H_C12_threshold_values', [])]
+    step = 64
+    top = 1024 if q else 16384
+    lo = 1
+    while lo <= top:
+        hi = min(top, lo + step - 1)
+        jobs.append(J('detect', 'H_C12_threshold', [lo, hi], fp_mode=True, timeout_ms=(60000 if q else 300000)))
+        lo = hi + 1
+        if lo > 1024:
+            step = 256
+    for n in (list(range(1, 13)) + [20, 50]) if q else (list(range(1, 21)) + [50, 100, 200]):
+        jobs.append(J('detect', 'H_C12_thresholdQ', [n]))
+    for n in ((2, 3, 5, 8) if q else (2, 3, 4, 5, 8, 12, 20)):
+        for i in range(n - 1):
+            jobs.append(J('detect', 'H_C12_thresholdQ_swap', [n, i]))
+    return jobs
+
+
 PROPS = {
+    'C12': {
+        'jobs': c12_jobs,
+        'bounds': {'quick': 'Threshold(s): bit-precise binary64 (QF_FP, RNE) for every s in 1..1024 in ranges of 64, against the exact integer characterisation; 48/50, 19/20, 981/1000 concretely; ThresholdQ: every list of length 1..12, 20, 50 of reals in [0,1]; permutation invariance by adjacent swaps at lengths 2,3,5,8',
+                   'thorough': 'Threshold(s) for s up to 16384 (ranges that time out are reported inconclusive); ThresholdQ lengths 1..20, 50, 100, 200; swaps at lengths up to 20'},
+        'outside': 's above the bound (10^6 is out of reach of bit-precise FP solving: unknown at 300 s); Igamc itself (uninterpreted); Q-values outside [0,1] or NaN',
+        'assumptions': ['ThresholdQ: float comparisons against the decimal bin edges are exact in reals and in binary64 alike (inputs compared with constants); V as exact real; Igamc uninterpreted'],
+    },
     'C04': {
         'jobs': c04_jobs,
         'bounds': {'quick': 'linearComplexity kernel: crash freedom + shortest-LFSR definition for every block of M<=9 bits, crash freedom M in {10,12,14}; LinearComplexityProto m in 3..6, N<=2 blocks + tail; MatrixRankProto with m x m matrices m in {2,3}, N<=2 + tail',
